@@ -27,8 +27,9 @@ func c01(p *P) {
 	p.gReceiveGuards("C01.R5")
 	p.gValidatedOnly("C01.R5")
 	p.gEquality("C01.R5")
+	p.include(c12, map[string]string{"C12.R1": "C01.R8", "C12.R4": "C01.R8b"}, map[string]string{"C01.R8": "an honest node never sends two different votes for a slot: filter ≺ WAL ≺ publish", "C01.R8b": "the filter is re-armed from the WAL on restart"})
 	p.include(c08, map[string]string{"C08.R1": "C01.R6", "C08.R2": "C01.R6b", "C08.R3": "C01.R6c", "C08.R4": "C01.R6d"}, map[string]string{"C01.R6": "strong-quorum threshold exact", "C01.R6b": "quorum operands from one table", "C01.R6c": "single threshold", "C01.R6d": "vote weights: exact scaling of the power table"})
-	p.include(c05, map[string]string{"C05.R4": "C01.R7", "C05.R5": "C01.R7b", "C05.R6": "C01.R7c", "C05.R2": "C01.R7d", "C05.R1": "C01.R7e", "C05.R9": "C01.R7f"}, map[string]string{"C01.R7": "justification validation", "C01.R7b": "justification signature", "C01.R7c": "validation cache cannot vouch for a different value", "C01.R7d": "per-phase validity table", "C01.R7e": "message accepted only past every check (sender, power, signature, justification)", "C01.R7f": "committee cache"})
+	p.include(c05, map[string]string{"C05.R4": "C01.R7", "C05.R5": "C01.R7b", "C05.R6": "C01.R7c", "C05.R2": "C01.R7d", "C05.R1": "C01.R7e", "C05.R9": "C01.R7f", "C05.R8": "C01.R7g"}, map[string]string{"C01.R7g": "validation-cache structures: lookups are read-only", "C01.R7": "justification validation", "C01.R7b": "justification signature", "C01.R7c": "validation cache cannot vouch for a different value", "C01.R7d": "per-phase validity table", "C01.R7e": "message accepted only past every check (sender, power, signature, justification)", "C01.R7f": "committee cache"})
 }
 
 func c02(p *P) {
@@ -48,7 +49,7 @@ func c02(p *P) {
 	p.gConvergeFilter("C02.R3")
 	p.gDecidePaths("C02.R4")
 	p.gBeginInstance("C02.R5")
-	p.include(c05, map[string]string{"C05.R2": "C02.R6", "C05.R4": "C02.R6b", "C05.R6": "C02.R6c", "C05.R1": "C02.R6d", "C05.R5": "C02.R6e"}, map[string]string{"C02.R6": "bottom invalid for QUALITY/CONVERGE/DECIDE", "C02.R6b": "justification validation", "C02.R6c": "validation cache cannot vouch for a different value", "C02.R6d": "message accepted only past every check", "C02.R6e": "justification signature"})
+	p.include(c05, map[string]string{"C05.R2": "C02.R6", "C05.R4": "C02.R6b", "C05.R6": "C02.R6c", "C05.R1": "C02.R6d", "C05.R5": "C02.R6e", "C05.R8": "C02.R6f"}, map[string]string{"C02.R6f": "validation-cache structures: lookups are read-only", "C02.R6": "bottom invalid for QUALITY/CONVERGE/DECIDE", "C02.R6b": "justification validation", "C02.R6c": "validation cache cannot vouch for a different value", "C02.R6d": "message accepted only past every check", "C02.R6e": "justification signature"})
 	p.include(c08, map[string]string{"C08.R1": "C02.R7", "C08.R4": "C02.R7b"}, map[string]string{"C02.R7": "strong-quorum threshold exact", "C02.R7b": "vote weights: exact scaling of the power table"})
 }
 
@@ -67,9 +68,10 @@ func c03(p *P) {
 	p.gJustificationFields("C03.R3")
 	p.gMinimalQuorum("C03.R4")
 	p.gSaveDecision("C03.R5")
+	p.gCommitteeAggregateKeys("C03.R5")
 	p.gDecidePaths("C03.R5b")
 	r.Rule("C03.R5b", "termination only from a strong DECIDE quorum with the justification just built", 16)
-	p.include(c05, map[string]string{"C05.R6": "C03.R6", "C05.R1": "C03.R6b"}, map[string]string{"C03.R6": "validation cache read-only on lookup, written after all checks", "C03.R6b": "message accept gated by all checks"})
+	p.include(c05, map[string]string{"C05.R6": "C03.R6", "C05.R1": "C03.R6b", "C05.R8": "C03.R6c"}, map[string]string{"C03.R6c": "validation-cache structures: lookups are read-only", "C03.R6": "validation cache read-only on lookup, written after all checks", "C03.R6b": "message accept gated by all checks"})
 	p.include(c08, map[string]string{"C08.R1": "C03.R7", "C08.R4": "C03.R7b"}, map[string]string{"C03.R7": "strong-quorum threshold exact", "C03.R7b": "scaled power (zero-power members) computed exactly"})
 	p.include(c04, map[string]string{"C04.R2": "C03.R8", "C04.R1": "C03.R8b"}, map[string]string{"C03.R8": "certificate validation checks the signature the way the decision was built (whole table's key set, DECIDE payload, same threshold)", "C03.R8b": "certificate validation gates"})
 }
@@ -104,6 +106,7 @@ func c07(p *P) {
 	r.Rule("C07.R10", "instance start: host chain truncated to the maximum, then validated; never an error for a long honest chain", 8)
 	p.gReceiveGuards("C07.R11")
 	r.Rule("C07.R11", "delivery guards of receiveOne", 20)
+	p.gProposalIsCandidate("C07.R6")
 	p.gHandleDecisionAlarm("C07.R14")
 	r.Rule("C07.R14", "after a decision the host alarm is always re-programmed (no stale alarm re-enters the finished instance)", 1)
 	p.include(c12, map[string]string{"C12.R1": "C07.R13", "C12.R4": "C07.R13b", "C12.R5": "C07.R13c"}, map[string]string{"C07.R13": "at most one message per slot on the wire: filter ≺ WAL ≺ publish", "C07.R13b": "the filter is re-armed from the WAL on start", "C07.R13c": "filter table"})
